@@ -48,3 +48,12 @@ func (sh *TimeSequenceHandler) VerifReset() {
 	defer sh.lock.Unlock()
 	sh.latest = time.Time{}
 }
+
+// VerifRolloverKey derives the next key of a rollover chain.
+func VerifRolloverKey(oldKey []byte) ([]byte, error) {
+	newKey, _, err := rolloverKey(oldKey)
+	return newKey, err
+}
+
+// VerifSetOut sets the outgoing sequence counter.
+func (sh *SequenceHandler) VerifSetOut(seq uint32) { sh.outSeq.Store(seq) }
